@@ -117,6 +117,20 @@ pub fn pending_batch_journal(rng: &mut Rng, img: &mut Vec<u8>) -> Option<&'stati
     let enc = pure::journal_encode_active(1 << 40, &exts).ok()?;
     let base = (1 + 3 * slot) * B;
     img[base..base + enc.len()].copy_from_slice(&enc);
+    if rng.chance(1, 3) {
+        // ... and a valid retirement marker in FRONT of the lowest journaled extent whose count
+        // reaches to its end or beyond: a scan that virtualises the journal (read-only open) jumps
+        // over the journaled extent without ever standing inside it
+        let (lo, n) = *exts.iter().min().unwrap();
+        if lo as usize > 17 {
+            let m = rng.range(16, lo - 1) as usize;
+            let reach = (lo as usize + n - m) as u64 + rng.below(2);
+            if m as u64 + reach <= blocks(img) as u64 {
+                write_marker(img, m, reach, *rng.pick(&[1u8, 2]));
+                return Some("pending-batch-journal+marker-across-it");
+            }
+        }
+    }
     Some("pending-batch-journal")
 }
 
@@ -175,6 +189,83 @@ pub fn plant_stale_generation(rng: &mut Rng, img: &mut Vec<u8>) -> Option<&'stat
     Some("stale-small-generation-above-its-successor")
 }
 
+/// An older generation that spans TWO blocks, planted above the newest generation of its key in two
+/// free blocks, whose continuation block is, byte for byte, a well-formed one-block record of a key
+/// that exists nowhere else ("ghost").  A scan that steps over the older generation by anything but
+/// its own length stands on the ghost and indexes it -- and the retirement of the older generation
+/// then removes it again, so that a second open disagrees with the first.
+pub fn plant_stale_big_generation(rng: &mut Rng, img: &mut Vec<u8>) -> Option<&'static str> {
+    let version = image_version(img);
+    let nb = blocks(img);
+    let mut covered = vec![false; nb];
+    let mut heads: Vec<(usize, usize)> = Vec::new();
+    let mut s = 16;
+    while s < nb {
+        if img[s * B] == 0xCD && img[s * B + 1] == 0xAB {
+            let n = claimed_blocks(img, s, version);
+            heads.push((s, n));
+            for c in covered.iter_mut().skip(s).take(n) {
+                *c = true;
+            }
+            s += n;
+        } else {
+            if img[s * B..s * B + 8] != [0u8; 8] {
+                covered[s] = true; // markers and anything else that is not plainly free
+            }
+            s += 1;
+        }
+    }
+    let ext = if version == 1 { 0 } else { 8 };
+    let winners: Vec<usize> = heads
+        .iter()
+        .map(|(h, _)| *h)
+        .filter(|h| {
+            let klen = u16::from_le_bytes([img[h * B + 4], img[h * B + 5]]) as usize;
+            klen >= 1 && klen <= 64 && u64::from_le_bytes(img[h * B + 14 + klen..h * B + 22 + klen].try_into().unwrap()) >= 2
+        })
+        .collect();
+    if winners.is_empty() {
+        return None;
+    }
+    let w = *rng.pick(&winners);
+    let spots: Vec<usize> = (w + 1..nb.saturating_sub(1)).filter(|f| !covered[*f] && !covered[*f + 1]).collect();
+    if spots.is_empty() {
+        return None;
+    }
+    let f = *rng.pick(&spots);
+    let klen = u16::from_le_bytes([img[w * B + 4], img[w * B + 5]]) as usize;
+    let ts = u64::from_le_bytes(img[w * B + 14 + klen..w * B + 22 + klen].try_into().unwrap());
+    // the ghost: a one-block record image for block f+1
+    let gkey = b"ghost-in-a-continuation-block";
+    let mut ghost = vec![0u8; B];
+    ghost[0] = 0xCD;
+    ghost[1] = 0xAB;
+    ghost[4..6].copy_from_slice(&(gkey.len() as u16).to_le_bytes());
+    ghost[6..6 + gkey.len()].copy_from_slice(gkey);
+    let gval = b"never-written-by-anybody";
+    ghost[6 + gkey.len()..14 + gkey.len()].copy_from_slice(&(gval.len() as u64).to_le_bytes());
+    ghost[14 + gkey.len()..22 + gkey.len()].copy_from_slice(&7_000u64.to_le_bytes());
+    let ghdr = 6 + gkey.len() + 16 + ext;
+    ghost[ghdr..ghdr + gval.len()].copy_from_slice(gval);
+    img[(f + 1) * B..(f + 2) * B].copy_from_slice(&ghost);
+    restamp_record(img, f + 1, version);
+    // the older generation: its value runs from its header to the end of block f+1
+    let hdr = 6 + klen + 16 + ext;
+    let vlen = 2 * B - hdr;
+    let mut head = vec![0u8; B];
+    head[0] = 0xCD;
+    head[1] = 0xAB;
+    head[4..6 + klen].copy_from_slice(&img[w * B + 4..w * B + 6 + klen]);
+    head[6 + klen..14 + klen].copy_from_slice(&(vlen as u64).to_le_bytes());
+    head[14 + klen..22 + klen].copy_from_slice(&(ts - 1).to_le_bytes());
+    for (i, b) in head.iter_mut().enumerate().skip(hdr) {
+        *b = (i * 7 + 3) as u8;
+    }
+    img[f * B..(f + 1) * B].copy_from_slice(&head);
+    restamp_record(img, f, version);
+    Some("stale-two-block-generation-with-a-ghost-in-its-continuation")
+}
+
 /// Apply one mutation; returns its name.
 pub fn mutate(rng: &mut Rng, img: &mut Vec<u8>) -> &'static str {
     let nb = blocks(img);
@@ -202,6 +293,11 @@ pub fn mutate(rng: &mut Rng, img: &mut Vec<u8>) -> &'static str {
             "forged-journal-count"
         }
         17 => {
+            if rng.chance(1, 2) {
+                if let Some(name) = plant_stale_big_generation(rng, img) {
+                    return name;
+                }
+            }
             if let Some(name) = plant_stale_generation(rng, img) {
                 return name;
             }
@@ -429,6 +525,7 @@ pub fn run(opts: &Opts) -> i32 {
     let shards = opts.u64("shards", 16);
     let bases = opts.u64("bases", if opts.thorough() { 40 } else { 4 });
     let per_base = opts.u64("mutants", if opts.thorough() { 60 } else { 12 });
+    let twice_opt = opts.u64("twice", 0) == 1;
     let keep = format!("{dir}/images");
     std::fs::create_dir_all(&keep).unwrap();
     let mut handles = Vec::new();
@@ -440,6 +537,7 @@ pub fn run(opts: &Opts) -> i32 {
             let mut rng = Rng::new(seed.wrapping_mul(104729).wrapping_add(sh));
             let mut kinds = std::collections::BTreeMap::<String, u64>::new();
             for b in 0..bases {
+                let twice = twice_opt;
                 let base = format!("{keep}/b{sh}_{b}.img");
                 let version = *rng.pick(&[3u64, 3, 3, 2, 1]);
                 let ttl = rng.chance(1, 2);
@@ -473,6 +571,21 @@ pub fn run(opts: &Opts) -> i32 {
                     let probe_ttl = rng.chance(1, 2);
                     let allow = rng.chance(1, 3);
                     let (now, recsize, line) = probe_image(&path, &format!("{path}.probe"), probe_ttl, allow);
+                    if twice && line.starts_with("ok") {
+                        // C04 on damaged files: an open that succeeded is followed by a second open of the
+                        // file as the first one left it; both must report the same keys
+                        // (TTL off for the pair: with TTL on a key may expire between the two opens)
+                        let (l1, l2) = crate::img::probe_twice(&path, &format!("{path}.probe2"), false, allow);
+                        let keys = |l: &str| l.split(' ').filter(|t| t.starts_with("n=") || t.starts_with("keys=")).collect::<Vec<_>>().join(" ");
+                        let verdict = if !l2.starts_with("ok") {
+                            format!("FAIL second-open-of-the-recovered-file-fails: {}", l2.split(' ').take(2).collect::<Vec<_>>().join("_"))
+                        } else if l1.starts_with("ok") && keys(&l1) != keys(&l2) {
+                            "FAIL second-open-reports-other-contents-than-the-first".to_string()
+                        } else {
+                            "ok".to_string()
+                        };
+                        out.emit3(&format!("note reopen-twice {path} mut={} first={} second={}", names.join("+"), keys(&l1).replace(' ', "_").chars().take(120).collect::<String>(), keys(&l2).replace(' ', "_").chars().take(120).collect::<String>()), "note", &verdict);
+                    }
                     let case = format!(
                         "open {path} ro=0 allow={} ttl={} now={now} recsize={recsize} mut={}",
                         allow as u8,
